@@ -1,50 +1,750 @@
+// Harness for C04 (terminal state is restored on every exit path).
+//
+// Every case starts a real Vaxis on hx.FakeConsole, runs a generated session
+// (frames, cursor / pointer-shape / app-id changes, Suspend/Resume cycles,
+// Close, a termination signal, a panic inside the input goroutine), and records
+// every byte written to the console per operation together with an outcome
+// code (0 returned, 2 never returned).  Sessions that end in a signal or a
+// panic run in a child process (this binary, -c04child) which streams every
+// console write to its stdout, so that the bytes survive the re-panic.
 package main
 
 import (
+	"bufio"
+	"encoding/hex"
+	"encoding/json"
 	"fmt"
+	"math/rand"
 	"os"
+	"os/exec"
+	"runtime/pprof"
+	"strings"
+	"sync"
+	"syscall"
 	"time"
 
 	vaxis "git.sr.ht/~rockorager/vaxis"
 	"verif/harness/hx"
 )
 
-func main() {
-	os.Unsetenv("COLORTERM")
-	if len(os.Args) > 1 && os.Args[1] == "wc" {
-		os.Setenv("VAXIS_FORCE_WCWIDTH", "1")
+// ---------- sessions ----------
+
+type cell struct {
+	G    int    `json:"g"`  // 0: zero Cell{}
+	Fg   int    `json:"fg"` // -1 default, else palette index
+	Bold bool   `json:"bold"`
+	Link string `json:"link"`
+}
+
+type op struct {
+	K     string   `json:"k"` // frame render refresh show hide shape appid suspend resume close kill panic
+	Grid  [][]cell `json:"grid,omitempty"`
+	Col   int      `json:"col,omitempty"`
+	Row   int      `json:"row,omitempty"`
+	Style int      `json:"style,omitempty"`
+	S     string   `json:"s,omitempty"`
+}
+
+type spec struct {
+	Mask        uint32 `json:"mask"` // hx.ProfileFromMask
+	CursorReply int    `json:"cursor_reply"`
+	NoMouse     bool   `json:"no_mouse"`
+	NoKitty     bool   `json:"no_kitty"` // Options.DisableKittyKeyboard
+	CSIuMask    int    `json:"csiu_mask"`
+	ReportKB    bool   `json:"report_kb"`
+	XTVersion   string `json:"xtversion"`
+	ForceWc     bool   `json:"force_wcwidth"`
+	ForceUni    bool   `json:"force_unicode"`
+	ForceNoZWJ  bool   `json:"force_nozwj"`
+	Rows        int    `json:"rows"`
+	Cols        int    `json:"cols"`
+	// the reference terminal the bytes are interpreted on
+	HonoursInband bool  `json:"honours_inband"`
+	Kitty0        []int `json:"kitty0"`
+	Ops           []op  `json:"ops"`
+	Class         string `json:"class,omitempty"`
+}
+
+type chunk struct {
+	Code  int
+	Bytes []byte
+}
+
+type observation struct {
+	Chunks []chunk
+	Caps   map[string]bool
+	KFlags int
+	UStyle int
+	AppID  string
+	Exit   string // child: how the process ended
+}
+
+func (s *spec) profile() hx.Profile {
+	p := hx.ProfileFromMask(s.Mask, s.Rows, s.Cols)
+	p.CursorStyleReply = s.CursorReply
+	p.XTVersion = s.XTVersion
+	return p
+}
+
+func setenv(k string, on bool) {
+	if on {
+		os.Setenv(k, "1")
+	} else {
+		os.Unsetenv(k)
 	}
-	for _, mask := range []uint32{0, 0x1ffff, 2} {
-		p := hx.ProfileFromMask(mask, 2, 3)
-		p.CursorStyleReply = 4
-		fc := hx.NewFakeConsole(p)
-		t0 := time.Now()
-		vx, err := vaxis.New(vaxis.Options{WithConsole: fc, NoSignals: true})
-		if err != nil {
-			panic(err)
+}
+
+var envMu sync.Mutex
+
+func (s *spec) options(fc *hx.FakeConsole, noSignals bool) vaxis.Options {
+	return vaxis.Options{WithConsole: fc, NoSignals: noSignals, DisableMouse: s.NoMouse,
+		DisableKittyKeyboard: s.NoKitty, CSIuBitMask: vaxis.CSIuBitMask(s.CSIuMask), ReportKeyboardEvents: s.ReportKB}
+}
+
+func toCell(c cell) vaxis.Cell {
+	if c.G == 0 && c.Fg < 0 && !c.Bold && c.Link == "" {
+		return vaxis.Cell{}
+	}
+	st := vaxis.Style{Hyperlink: c.Link}
+	if c.Fg >= 0 {
+		st.Foreground = vaxis.IndexColor(uint8(c.Fg))
+	}
+	if c.Bold {
+		st.Attribute = vaxis.AttrBold
+	}
+	ch := vaxis.Character{}
+	if c.G != 0 {
+		ch = vaxis.Character{Grapheme: string(rune(c.G)), Width: 1}
+	}
+	return vaxis.Cell{Character: ch, Style: st}
+}
+
+const opTimeout = 3 * time.Second
+
+// apply runs one synchronous operation; it reports false when it did not return.
+func apply(vx *vaxis.Vaxis, o op) bool {
+	return hx.WithTimeout(opTimeout, func() {
+		switch o.K {
+		case "frame":
+			win := vx.Window()
+			for r, row := range o.Grid {
+				for c, cl := range row {
+					win.SetCell(c, r, toCell(cl))
+				}
+			}
+			vx.Render()
+		case "render":
+			vx.Render()
+		case "refresh":
+			vx.Refresh()
+		case "show":
+			vx.ShowCursor(o.Col, o.Row, vaxis.CursorStyle(o.Style))
+		case "hide":
+			vx.HideCursor()
+		case "shape":
+			vx.SetMouseShape(vaxis.MouseShape(o.S))
+		case "appid":
+			vx.SetAppID(o.S)
+		case "suspend":
+			vx.Suspend()
+		case "resume":
+			vx.Resume()
+		case "close":
+			vx.Close()
+		default:
+			panic("unknown op " + o.K)
 		}
-		fmt.Println("new", time.Since(t0))
-		fmt.Printf("%q\n", fc.Take()[8192:])
-		win := vx.Window()
-		win.SetCell(1, 0, vaxis.Cell{Character: vaxis.Character{Grapheme: "a", Width: 1}, Style: vaxis.Style{Foreground: vaxis.IndexColor(3), Attribute: vaxis.AttrBold, Hyperlink: "u"}})
-		vx.ShowCursor(1, 1, vaxis.CursorBeam)
-		vx.SetMouseShape(vaxis.MouseShapeClickable)
-		vx.Render()
-		fmt.Printf("frame %q\n", fc.Take())
-		vx.Render()
-		fmt.Printf("frame2 %q\n", fc.Take())
-		ok := hx.WithTimeout(2*time.Second, func() { vx.Suspend() })
-		fmt.Printf("suspend %v %q\n", ok, fc.Take())
-		vx.Resume()
-		b := fc.Take()
-		fmt.Printf("resume %d %q\n", len(b), b[8192:])
-		vx.Render()
-		fmt.Printf("frame3 %q\n", fc.Take())
-		t0 = time.Now()
-		ok = hx.WithTimeout(2*time.Second, vx.Close)
-		fmt.Println("close", ok, time.Since(t0))
-		fmt.Printf("%q\n", fc.Take())
-		ok = hx.WithTimeout(300*time.Millisecond, vx.Close)
-		fmt.Printf("close2 %v %q\n", ok, fc.Take())
+	})
+}
+
+// runInProcess executes a session that contains no kill / panic operation.
+func runInProcess(s *spec) observation {
+	envMu.Lock()
+	setenv("VAXIS_FORCE_WCWIDTH", s.ForceWc)
+	setenv("VAXIS_FORCE_UNICODE", s.ForceUni)
+	setenv("VAXIS_FORCE_NOZWJ", s.ForceNoZWJ)
+	fc := hx.NewFakeConsole(s.profile())
+	vx, err := vaxis.New(s.options(fc, true))
+	envMu.Unlock()
+	if err != nil {
+		panic(err)
 	}
+	var ob observation
+	ob.Chunks = append(ob.Chunks, chunk{0, fc.Take()})
+	ob.Caps = vx.VerifCaps()
+	ob.KFlags = vx.VerifKittyFlags()
+	ob.UStyle = vx.VerifUserCursorStyle()
+	ob.AppID = vx.VerifAppIDLast()
+	hung := false
+	for _, o := range s.Ops {
+		if hung {
+			ob.Chunks = append(ob.Chunks, chunk{0, nil})
+			continue
+		}
+		ok := apply(vx, o)
+		code := 0
+		if !ok {
+			code, hung = 2, true
+		}
+		ob.Chunks = append(ob.Chunks, chunk{code, fc.Take()})
+	}
+	return ob
+}
+
+// ---------- child process (kill / panic paths) ----------
+
+// The child prints lines: "W <hex>" for every console write, "B <code-of-previous>" at
+// every operation boundary, "I <json>" once after New, "E" when the session is over.
+func childMain(arg string) {
+	var s spec
+	if err := json.Unmarshal([]byte(arg), &s); err != nil {
+		panic(err)
+	}
+	os.Unsetenv("COLORTERM")
+	setenv("VAXIS_FORCE_WCWIDTH", s.ForceWc)
+	setenv("VAXIS_FORCE_UNICODE", s.ForceUni)
+	setenv("VAXIS_FORCE_NOZWJ", s.ForceNoZWJ)
+	var mu sync.Mutex
+	say := func(line string) {
+		mu.Lock()
+		os.Stdout.WriteString(line + "\n")
+		mu.Unlock()
+	}
+	fc := hx.NewFakeConsole(s.profile())
+	fc.WriteHook = func(p []byte) { say("W " + hex.EncodeToString(p)) }
+	vx, err := vaxis.New(s.options(fc, false)) // with signal handlers
+	if err != nil {
+		panic(err)
+	}
+	info, _ := json.Marshal(map[string]interface{}{"caps": vx.VerifCaps(), "kflags": vx.VerifKittyFlags(),
+		"ustyle": vx.VerifUserCursorStyle(), "appid": vx.VerifAppIDLast()})
+	say("I " + string(info))
+	for _, o := range s.Ops {
+		say("B")
+		switch o.K {
+		case "kill":
+			syscall.Kill(os.Getpid(), syscall.SIGTERM)
+			select {
+			case <-vx.VerifQuitCh():
+			case <-time.After(opTimeout):
+				say("H")
+			}
+		case "panic":
+			vx.VerifPoisonCursorPos()
+			fc.InjectString("\x1b[5;5R")
+			// the input goroutine recovers, calls Close and panics again: the process dies
+			time.Sleep(opTimeout)
+			say("H")
+		default:
+			if !apply(vx, o) {
+				say("H")
+			}
+		}
+	}
+	say("E")
+	os.Exit(0)
+}
+
+func runInChild(s *spec) observation {
+	js, _ := json.Marshal(s)
+	cmd := exec.Command(os.Args[0], "-c04child", string(js))
+	cmd.Env = append(os.Environ(), "GOTRACEBACK=none")
+	out, err := cmd.StdoutPipe()
+	if err != nil {
+		panic(err)
+	}
+	if err := cmd.Start(); err != nil {
+		panic(err)
+	}
+	var ob observation
+	cur := chunk{}
+	sc := bufio.NewScanner(out)
+	sc.Buffer(make([]byte, 1<<20), 1<<26)
+	ended := false
+	for sc.Scan() {
+		line := sc.Text()
+		switch {
+		case strings.HasPrefix(line, "W "):
+			b, _ := hex.DecodeString(line[2:])
+			cur.Bytes = append(cur.Bytes, b...)
+		case line == "B":
+			ob.Chunks = append(ob.Chunks, cur)
+			cur = chunk{}
+		case line == "H":
+			cur.Code = 2
+		case strings.HasPrefix(line, "I "):
+			var info struct {
+				Caps   map[string]bool `json:"caps"`
+				KFlags int             `json:"kflags"`
+				UStyle int             `json:"ustyle"`
+				AppID  string          `json:"appid"`
+			}
+			json.Unmarshal([]byte(line[2:]), &info)
+			ob.Caps, ob.KFlags, ob.UStyle, ob.AppID = info.Caps, info.KFlags, info.UStyle, info.AppID
+		case line == "E":
+			ended = true
+		}
+	}
+	ob.Chunks = append(ob.Chunks, cur)
+	err = cmd.Wait()
+	switch {
+	case ended && err == nil:
+		ob.Exit = "exit0"
+	case err != nil:
+		ob.Exit = err.Error()
+	default:
+		ob.Exit = "eof"
+	}
+	for len(ob.Chunks) < len(s.Ops)+1 {
+		ob.Chunks = append(ob.Chunks, chunk{})
+	}
+	return ob
+}
+
+// ---------- Coq printing ----------
+
+func coqStr(s string) string { return hx.Bytes([]byte(s)) }
+
+func coqCell(c cell) string {
+	if c.G == 0 && c.Fg < 0 && !c.Bold && c.Link == "" {
+		return "blank"
+	}
+	return fmt.Sprintf("(mkCell %s %s %s %s)", hx.Z(int64(c.G)), hx.Z(int64(c.Fg)), hx.Bool(c.Bold), coqStr(c.Link))
+}
+
+func coqOp(o op) string {
+	switch o.K {
+	case "frame":
+		var rows []string
+		for _, r := range o.Grid {
+			var cs []string
+			for _, c := range r {
+				cs = append(cs, coqCell(c))
+			}
+			rows = append(rows, hx.List(cs))
+		}
+		return "OpFrame " + hx.List(rows)
+	case "render":
+		return "OpRender"
+	case "refresh":
+		return "OpRefresh"
+	case "show":
+		return fmt.Sprintf("OpShowCursor %s %s %s", hx.Z(int64(o.Col)), hx.Z(int64(o.Row)), hx.Z(int64(o.Style)))
+	case "hide":
+		return "OpHideCursor"
+	case "shape":
+		return "OpSetMouseShape " + coqStr(o.S)
+	case "appid":
+		return "OpSetAppID " + coqStr(o.S)
+	case "suspend":
+		return "OpSuspend"
+	case "resume":
+		return "OpResume"
+	case "close":
+		return "OpClose"
+	case "kill":
+		return "OpKill"
+	case "panic":
+		return "OpPanic"
+	}
+	panic("op " + o.K)
+}
+
+// segs run-length encodes NUL runs of 32 or more
+func coqSegs(b []byte) string {
+	var segs []string
+	i := 0
+	start := 0
+	flush := func(end int) {
+		if end > start {
+			segs = append(segs, "Raw "+hx.Bytes(b[start:end]))
+		}
+	}
+	for i < len(b) {
+		if b[i] == 0 {
+			j := i
+			for j < len(b) && b[j] == 0 {
+				j++
+			}
+			if j-i >= 32 {
+				flush(i)
+				segs = append(segs, fmt.Sprintf("Nuls %d", j-i))
+				start = j
+			}
+			i = j
+			continue
+		}
+		i++
+	}
+	flush(len(b))
+	return hx.List(segs)
+}
+
+var capOrder = []string{"synchronizedUpdate", "unicodeCore", "explicitWidth", "kittyKeyboard", "sixels", "colorThemeUpdates", "osc176", "inBandResize"}
+
+func bit(m uint32, i uint) bool { return m&(1<<i) != 0 }
+
+func (s *spec) term(ob observation) string {
+	m := s.Mask
+	det := []bool{bit(m, 0), bit(m, 1), bit(m, 9), bit(m, 5) && !s.NoKitty, bit(m, 7), bit(m, 2), bit(m, 15), bit(m, 3)}
+	var ds []string
+	for _, d := range det {
+		ds = append(ds, hx.Bool(d))
+	}
+	flags := "(mkFlags " + strings.Join(ds, " ") + " " + hx.Bool(s.NoMouse) + ")"
+	opts := fmt.Sprintf("(mkOpts %s %s %s %s %s)", hx.Bool(s.NoMouse), hx.Bool(s.XTVersion == "tmux 3.4"),
+		hx.Bool(s.ForceWc), hx.Bool(s.ForceUni), hx.Bool(s.ForceNoZWJ))
+	appid := ""
+	if bit(m, 15) {
+		appid = "fakeapp"
+	}
+	ustyle := 0
+	if s.CursorReply >= 0 && s.CursorReply <= 6 {
+		ustyle = s.CursorReply
+	}
+	var ops, obs, caps []string
+	for _, o := range s.Ops {
+		ops = append(ops, coqOp(o))
+	}
+	for _, c := range ob.Chunks {
+		obs = append(obs, hx.Tuple(hx.Z(int64(c.Code)), coqSegs(c.Bytes)))
+	}
+	for _, k := range capOrder {
+		caps = append(caps, hx.Bool(ob.Caps[k]))
+	}
+	return fmt.Sprintf("mkCase %s %s %s %s %s %s %s %s %s %s\n %s\n %s\n %s %s",
+		opts, flags, hx.Z(int64(s.CSIuMask)), hx.Bool(s.ReportKB), coqStr(appid), hx.Z(int64(ustyle)),
+		hx.Z(int64(s.Rows)), hx.Z(int64(s.Cols)), hx.Bool(s.HonoursInband), hx.IntList(s.Kitty0),
+		hx.List(ops), hx.List(obs), hx.List(caps), hx.Z(int64(ob.KFlags)))
+}
+
+func cpuTime() time.Duration {
+	var ru syscall.Rusage
+	syscall.Getrusage(syscall.RUSAGE_SELF, &ru)
+	return time.Duration(ru.Utime.Nano() + ru.Stime.Nano())
+}
+
+// ---------- generators ----------
+
+var shapes = []string{"default", "text", "pointer", "help", "progress", "wait", "ew-resize", "ns-resize", "cell"}
+var links = []string{"", "", "u", "http://x"}
+var fgs = []int{-1, -1, 1, 9, 200}
+
+func genGrid(r *rand.Rand, rows, cols int, styled bool) [][]cell {
+	g := make([][]cell, rows)
+	for i := range g {
+		g[i] = make([]cell, cols)
+		for j := range g[i] {
+			c := cell{Fg: -1}
+			if r.Intn(3) > 0 {
+				c.G = 33 + r.Intn(94)
+				if styled {
+					c.Fg = fgs[r.Intn(len(fgs))]
+					c.Bold = r.Intn(3) == 0
+					c.Link = links[r.Intn(len(links))]
+				}
+			}
+			g[i][j] = c
+		}
+	}
+	return g
+}
+
+// genOps produces a session that respects the API protocol (no Resume unless
+// suspended, nothing but cursor / shape changes while suspended, only Close
+// after Close) and ends with `last`.
+func genOps(r *rand.Rand, s *spec, n int, last string) []op {
+	var ops []op
+	suspended := false
+	osc176 := bit(s.Mask, 15)
+	for len(ops) < n {
+		if suspended {
+			switch r.Intn(5) {
+			case 0:
+				ops = append(ops, op{K: "show", Col: r.Intn(s.Cols), Row: r.Intn(s.Rows), Style: r.Intn(7)})
+			case 1:
+				ops = append(ops, op{K: "shape", S: shapes[r.Intn(len(shapes))]})
+			default:
+				ops = append(ops, op{K: "resume"})
+				suspended = false
+			}
+			continue
+		}
+		switch x := r.Intn(20); {
+		case x < 6:
+			ops = append(ops, op{K: "frame", Grid: genGrid(r, s.Rows, s.Cols, r.Intn(4) > 0)})
+		case x < 8:
+			ops = append(ops, op{K: "render"})
+		case x < 9:
+			ops = append(ops, op{K: "refresh"})
+		case x < 12:
+			ops = append(ops, op{K: "show", Col: r.Intn(s.Cols), Row: r.Intn(s.Rows), Style: r.Intn(7)})
+		case x < 13:
+			ops = append(ops, op{K: "hide"})
+		case x < 15:
+			ops = append(ops, op{K: "shape", S: shapes[r.Intn(len(shapes))]})
+		case x < 16:
+			if osc176 {
+				ops = append(ops, op{K: "appid", S: "app" + fmt.Sprint(r.Intn(100))})
+			}
+		case x < 19:
+			ops = append(ops, op{K: "suspend"})
+			suspended = true
+		default:
+			ops = append(ops, op{K: "render"})
+		}
+	}
+	switch last {
+	case "suspend":
+		if suspended {
+			ops = append(ops, op{K: "resume"}, op{K: "render"})
+		}
+		ops = append(ops, op{K: "suspend"})
+	default:
+		if suspended {
+			ops = append(ops, op{K: "resume"})
+			if r.Intn(2) == 0 {
+				ops = append(ops, op{K: "frame", Grid: genGrid(r, s.Rows, s.Cols, true)})
+			}
+		}
+		ops = append(ops, op{K: last})
+		if last == "close" && r.Intn(3) == 0 {
+			ops = append(ops, op{K: "close"}) // a second Close is harmless
+		}
+	}
+	return ops
+}
+
+// modeBits are the profile switches that reach enableModes / disableModes / the writer
+var modeBits = []uint{0, 1, 2, 3, 5, 7, 9, 15}
+var otherBits = []uint{4, 6, 8, 10, 11, 12, 13, 14, 16}
+
+func maskOf(r *rand.Rand, combo int) uint32 {
+	var m uint32
+	for i, b := range modeBits {
+		if combo&(1<<uint(i)) != 0 {
+			m |= 1 << b
+		}
+	}
+	for _, b := range otherBits {
+		if r.Intn(2) == 0 {
+			m |= 1 << b
+		}
+	}
+	return m
+}
+
+func baseSpec(r *rand.Rand, combo int, noMouse bool) *spec {
+	s := &spec{Mask: maskOf(r, combo), CursorReply: -1, NoMouse: noMouse, CSIuMask: 0, Rows: 1 + r.Intn(2), Cols: 1 + r.Intn(3)}
+	if bit(s.Mask, 4) {
+		s.XTVersion = "fake(1.0)"
+	}
+	switch r.Intn(4) {
+	case 0:
+		s.CursorReply = r.Intn(7)
+	case 1:
+		s.CursorReply = -2
+	}
+	s.HonoursInband = bit(s.Mask, 3)
+	if r.Intn(3) == 0 {
+		s.Kitty0 = []int{r.Intn(32)}
+	}
+	return s
+}
+
+func main() {
+	if len(os.Args) == 3 && os.Args[1] == "-c04child" {
+		childMain(os.Args[2])
+		return
+	}
+	cfg := hx.ParseFlags()
+	if pf := os.Getenv("C04_CPUPROFILE"); pf != "" {
+		f, _ := os.Create(pf)
+		pprof.StartCPUProfile(f)
+		defer pprof.StopCPUProfile()
+	}
+	os.Unsetenv("COLORTERM")
+	for _, k := range []string{"VAXIS_FORCE_LEGACY_SGR", "VAXIS_FORCE_XTWINOPS", "VAXIS_DISABLE_NOZWJ", "VAXIS_GRAPHICS", "ASCIINEMA_REC", "VAXIS_LOG_LEVEL"} {
+		os.Unsetenv(k)
+	}
+	r := cfg.Rand
+	st := hx.NewStream("session", "model.ModeTerm model.ModesTypes model.Modes", "c04case", "c04_session_mismatches", "c04_session_violations")
+	st.Known = "c04_session_known"
+	st.KnownClass = "suspend-then-close"
+	st.ShardMax = 48
+	var direct []hx.DirectViolation
+	t0 := time.Now()
+	spawned := 0
+
+	add := func(s *spec, tags ...string) {
+		child := false
+		for _, o := range s.Ops {
+			if o.K == "kill" || o.K == "panic" {
+				child = true
+			}
+		}
+		var ob observation
+		c0 := cpuTime()
+		defer func() {
+			if d := cpuTime() - c0; os.Getenv("C04_TRACE") != "" && d > 20*time.Millisecond {
+				js, _ := json.Marshal(s)
+				fmt.Fprintln(os.Stderr, "slow case", d, string(js))
+			}
+		}()
+		if child {
+			ob = runInChild(s)
+			spawned++
+		} else {
+			ob = runInProcess(s)
+		}
+		cycles := false
+		for _, o := range s.Ops {
+			if o.K == "resume" {
+				cycles = true
+			}
+		}
+		nontriv := s.NoMouse || cycles || s.ForceWc || s.ForceUni || s.ForceNoZWJ
+		for _, b := range modeBits {
+			nontriv = nontriv || bit(s.Mask, b)
+		}
+		js := map[string]interface{}{"spec": s, "exit": ob.Exit}
+		if s.Class != "" {
+			js["class"] = s.Class
+		}
+		var codes []int
+		for _, c := range ob.Chunks {
+			codes = append(codes, c.Code)
+		}
+		js["outcomes"] = codes
+		tags = append(tags, fmt.Sprintf("ops=%d", (len(s.Ops)+3)/4*4))
+		st.Add(s.term(ob), js, nontriv, tags...)
+	}
+
+	perCombo := 1
+	if cfg.Thorough() {
+		perCombo = 6
+	}
+	// 1. every subset of the mode-relevant capabilities x DisableMouse
+	for combo := 0; combo < 256; combo++ {
+		for _, nm := range []bool{false, true} {
+			for k := 0; k < perCombo; k++ {
+				s := baseSpec(r, combo, nm)
+				last := "close"
+				if r.Intn(5) == 0 {
+					last = "suspend"
+				}
+				s.Ops = genOps(r, s, 2+r.Intn(7), last)
+				add(s, "allcaps", "last="+last)
+			}
+		}
+	}
+	// 2. quirks (applyQuirks runs between capability detection and enableModes)
+	for q := 0; q < 16; q++ {
+		for ue := 0; ue < 4; ue++ {
+			combo := 0
+			if ue&1 != 0 {
+				combo |= 1 << 1 // unicode
+			}
+			if ue&2 != 0 {
+				combo |= 1 << 6 // explicit width
+			}
+			s := baseSpec(r, combo|r.Intn(256)&^((1<<1)|(1<<6)), r.Intn(4) == 0)
+			s.ForceWc, s.ForceUni, s.ForceNoZWJ = q&1 != 0, q&2 != 0, q&4 != 0
+			if q&8 != 0 {
+				s.XTVersion = "tmux 3.4"
+				s.Mask |= 1 << 4
+			}
+			s.Ops = genOps(r, s, 1+r.Intn(5), "close")
+			add(s, "quirks")
+		}
+	}
+	// 3. cursor style replies, kitty keyboard options
+	for _, cr := range []int{-2, -1, 0, 1, 2, 3, 4, 5, 6} {
+		s := baseSpec(r, r.Intn(256), false)
+		s.CursorReply = cr
+		s.Ops = genOps(r, s, 3, "close")
+		add(s, "cursorstyle")
+	}
+	for _, km := range []int{0, 1, 2, 3, 8, 31} {
+		for _, rep := range []bool{false, true} {
+			s := baseSpec(r, r.Intn(256)|1<<4, false) // kitty keyboard advertised
+			s.CSIuMask, s.ReportKB = km, rep
+			s.NoKitty = km == 8 && rep
+			s.Kitty0 = []int{5, 1}
+			s.Ops = genOps(r, s, 4, "close")
+			add(s, "kittyflags")
+		}
+	}
+	// 4. a terminal that implements ?2048 but does not send the immediate report
+	for i := 0; i < 6; i++ {
+		s := baseSpec(r, r.Intn(256)&^(1<<3), i%2 == 0)
+		s.HonoursInband = true
+		last := "close"
+		if i >= 4 {
+			last = "suspend"
+		}
+		s.Ops = genOps(r, s, 1+r.Intn(4), last)
+		add(s, "inband-silent")
+	}
+	// 5. termination signal and panic inside the input goroutine (child processes)
+	nchild := 12
+	if cfg.Thorough() {
+		nchild = 128
+	}
+	for i := 0; i < nchild; i++ {
+		s := baseSpec(r, r.Intn(256), r.Intn(3) == 0)
+		last := "kill"
+		if i%2 == 1 {
+			last = "panic"
+		}
+		s.Ops = genOps(r, s, r.Intn(6), last)
+		add(s, "exit="+last)
+	}
+	// 6. the recorded finding: Suspend or Close while suspended never returns
+	{
+		var wg sync.WaitGroup
+		var mu sync.Mutex
+		type res struct {
+			s  *spec
+			ob observation
+		}
+		tails := [][]string{{"suspend", "close"}, {"suspend", "suspend"}, {"render", "suspend", "show", "close"}, {"suspend", "resume", "suspend", "close"}}
+		rs := make([]res, len(tails))
+		for i, tl := range tails {
+			s := baseSpec(r, r.Intn(256), false)
+			s.Class = "suspend-then-close"
+			for _, k := range tl {
+				o := op{K: k}
+				if k == "show" {
+					o.Style = 4
+				}
+				s.Ops = append(s.Ops, o)
+			}
+			wg.Add(1)
+			go func(i int, s *spec) {
+				defer wg.Done()
+				ob := runInProcess(s)
+				mu.Lock()
+				rs[i] = res{s, ob}
+				mu.Unlock()
+			}(i, s)
+		}
+		wg.Wait()
+		for _, x := range rs {
+			var codes []int
+			for _, c := range x.ob.Chunks {
+				codes = append(codes, c.Code)
+			}
+			st.Add(x.s.term(x.ob), map[string]interface{}{"spec": x.s, "class": x.s.Class, "outcomes": codes}, true, "known-hang")
+		}
+	}
+	if pf := os.Getenv("C04_GDUMP"); pf != "" {
+		f, _ := os.Create(pf)
+		pprof.Lookup("goroutine").WriteTo(f, 2)
+		f.Close()
+	}
+	extra := map[string]interface{}{"child_processes": spawned, "harness_seconds": time.Since(t0).Seconds(),
+		"capability_subsets": "all 256 subsets of {sync, unicode, colortheme, inband, kittykb, sixel, explicitwidth, osc176} x DisableMouse"}
+	cfg.Write("C04", "sessions on a real Vaxis over hx.FakeConsole: every subset of the 8 mode-relevant capabilities x DisableMouse with a generated session (frames with styled/hyperlinked cells, Render, Refresh, ShowCursor/HideCursor, SetMouseShape, SetAppID, Suspend/Resume cycles) ending in Close or Suspend; quirk environment variables; cursor-style replies; kitty flag options; a terminal that implements ?2048 silently; SIGTERM and a panic in the input goroutine in child processes; Suspend/Close while suspended (recorded finding). non-trivial = some capability/option-conditional branch of enableModes/disableModes is taken or the session has a Suspend/Resume cycle; distinct by the whole case",
+		[]*hx.Stream{st}, extra, direct)
 }
